@@ -64,6 +64,10 @@ def digest(x) -> str:
     return h.hexdigest()
 
 
+_START_ERR = np.geterr()   # numpy's error state when the harness was loaded (restored before every lone run of the frame condition,
+                           # so that a task is judged against the defaults and not against what an earlier call left behind)
+
+
 def frame() -> dict:
     """Process-wide settings a library call has no business changing (extended behaviour, X01 only)."""
     import decimal  # noqa: PLC0415
@@ -97,6 +101,8 @@ def stress(ctx: core.Ctx, label: str, tasks: list, *, nthreads: int = 4, rounds:
     """Run `tasks` [(name, thunk), ...] alone and then concurrently; judge with ReentrantTrace.tla. Returns statistics."""
     ref, kept, unstable, raises_alone = {}, [], [], []
     for i, (name, thunk) in enumerate(tasks, start=1):
+        if check_frame:
+            np.seterr(**_START_ERR)
         f0 = frame() if check_frame else None
         a, ea = _call(thunk)
         if check_frame:
